@@ -21,7 +21,7 @@ func init() {
 	Register(&Rule{
 		ID:    "R-RESETALL",
 		Doc:   "for every Reset method of a repository struct (json.Tokenizer, thrift.Encoder, thrift.Decoder): each field of the receiver's struct type is stored on every path through the method (a store through the receiver's field address, or a store of a whole struct value over the receiver); fields that deliberately survive a Reset are listed with the reason",
-		Props: []string{"C17", "C04"},
+		Props: []string{"C17", "C04", "C10"},
 		Min:   map[string]int{"C17": 1, "C04": 2},
 		Run:   runResetAll,
 	})
@@ -55,7 +55,7 @@ func runResetAll(c *core.Ctx) []core.Obligation {
 		key := "resetall:" + name
 		props := []string{"C04"}
 		if fn.Pkg.Pkg.Name() == "json" {
-			props = []string{"C17"}
+			props = []string{"C17", "C10"} // what Reset leaves behind includes pooled memory it released
 		}
 		recv := fn.Params[0]
 		// fields stored in blocks that every path to a return goes through: keep it simple and
